@@ -63,7 +63,7 @@ def spec_strategy(min_nodes=4, max_nodes=14, allow_seed=True, allow_groups=False
             if kind in VAR_KINDS and not name:
                 name = f"x{i}"
             d = {"kind": kind, "name": name, "inputs": ins, "coef": [draw(st.integers(0, 9))] + [draw(st.integers(1, 3)) for _ in ins],
-                 "shape": shape, "value": draw(st.integers(0, 30)), "group": None}
+                 "shape": shape, "value": draw(st.integers(0, 30)), "group": None, "custom": kind in ("wvar", "wdvar") and draw(st.integers(0, 2)) == 0}
             if allow_groups and draw(st.integers(0, 4)) == 0:
                 d["group"] = draw(st.sampled_from(["g1", "g2"]))
             decls.append(d)
@@ -177,12 +177,15 @@ class Built:
 
             self.raw[i] = fn
             return lsl.Calc(self._counted(i, gfn), ig, _name=d["name"])
+        custom = bool(d.get("custom"))      # user-chosen names for the nodes inside a variable (instead of the derived <var>_value / <var>_log_prob)
         if k == "wvar":
-            return lsl.Var(lsl.Calc(self._counted(i, fn), *pos, **kws), name=d["name"])
+            return lsl.Var(lsl.Calc(self._counted(i, fn), *pos, _name=f"inner_calc_{i}" if custom else "", **kws), name=d["name"])
         if k == "wdvar":
             loc = (pos + list(kws.values()))[0]
             dist = self._dist(i, loc)
-            return lsl.Var(lsl.Calc(self._counted(i, fn), *pos, **kws), dist, name=d["name"])
+            if custom:
+                dist.name = f"inner_lp_{i}"
+            return lsl.Var(lsl.Calc(self._counted(i, fn), *pos, _name=f"inner_calc_{i}" if custom else "", **kws), dist, name=d["name"])
         raise ValueError(k)
 
     def build(self, copy=False):
